@@ -875,7 +875,7 @@ impl Scenario for C11 {
 
     fn run(&self, case: &Case, ctx: &Arc<RunCtx>) -> RunOut {
         // switch threads only at this scenario's own layer's sites (see sched::Baton::allow)
-        crate::sched::set_allowed_sites(&["c11.", "router.", "metadata.", "cache."]);
+        crate::sched::set_allowed_sites(&["c11.", "router.", "metadata.", "cache.", "store."]);
         let mut out = RunOut::default();
         let dir = ctx.node_dir(NODE);
         let wal = format!("{dir}/store.wal");
